@@ -53,6 +53,16 @@ CHECKS = {
         "Exception-derived interrupts only; model pool as in C16.",
         "5.5",
     ),
+    "C17": (
+        "model_checking", "calls",
+        "explicit-state BFS over call histories of aggregate evaluations with full object-state hashing, plus the argument-immutability invariant on every transition of the index state graph",
+        "Index methods: on every transition of the C06 fixpoint graph the receiver of non-mutating methods and every argument must be byte-identical. Aggregates: all call "
+        "histories to depth 2 (3 in thorough) over an alphabet of every ordered selection of 1..2(3) of 8+13 function objects on 4 cubes plus shortcut methods; each "
+        "result must equal each aggregate evaluated alone on fresh objects bit for bit, caller-owned arrays must be byte-identical, and the hash of the entire reachable "
+        "object state is tracked: it never changes, so every event is a self-loop and depth 1 decides all histories over the alphabet.",
+        "Diagnostic counters are excluded from the state hash (they never feed an output: supported dynamically).",
+        "4.3, 6",
+    ),
     "C18": (
         "exploration", "enum",
         "bounded-exhaustive enumeration of array cubes x fact/weight/missing patterns x probabilities; textbook per-cell statistics in plain Python as oracle",
